@@ -49,4 +49,20 @@ func init() {
 		Bounds:  "conf strings <= 10 bytes; 0..2 function blocks; every subset of stage failures", Assumes: []string{aEnv, "stage summaries as in C18/C15Run"}})
 	reg(&HarnessSpec{Prop: "C15", Name: "C18Generate", Replay: "e2e-cli",
 		What: "Generate's write discipline (see C18Generate)", Bounds: "base code <= 30 bytes", Assumes: []string{aEnv}})
+
+	// ---------------------------------------------------------------- C19
+	aSigma := "subject code points are restricted to the finite alphabet Sigma (printable ASCII, newline, tab, every code point on which ToLower and simple case folding induce different equivalences - computed from Go's unicode tables at run time -, a few ordinary non-ASCII letters; closed under ToLower/ToUpper/SimpleFold); case tables are define-fun ite-tables generated from Go's unicode package"
+	aRe := "regexp is environment: expressions are compiled natively (regexp/syntax); membership of a symbolic subject is decided by symbolic simulation of the compiled regexp/syntax program (Thompson NFA) over the rune vector - exact for membership incl. anchors, \\b and fold-case flags; the oracle compiles the ORIGINAL expression (prefixed with (?i) when the case rule is off)"
+	reg(&HarnessSpec{Prop: "C19", Name: "C19PatternMatcher",
+		What:    "real NewPatternMatcher/compileRegexp/PatternMatcher.Match for every catalogue pattern (plain incl. metacharacters and non-ASCII letters; /regexp/ with classes, negated and Perl/Unicode classes, anchors, alternation, repetition, flags, escapes; invalid ones), both case rules at construction and query, after every history of <= 2 earlier queries with arbitrary rules: accepted iff the expression is valid; answer = documented meaning (equality / Unicode simple-fold equality / RE2 search, case-insensitive when the rule is off); no panic",
+		Bounds:  "95 catalogue patterns; subject <= 3 code points (quick) / <= 5 (thorough) of Sigma; history <= 2 (quick) / 3 (thorough) one-code-point queries",
+		Assumes: []string{aSigma, aRe}, Tier: "quick"})
+	reg(&HarnessSpec{Prop: "C19", Name: "C19PatternMatcherDeep", Tier: "thorough",
+		What: "as C19PatternMatcher with subjects <= 5 code points and histories <= 3", Bounds: "subject <= 5, history <= 3", Assumes: []string{aSigma, aRe}})
+	reg(&HarnessSpec{Prop: "C19", Name: "C19ShouldSkip",
+		What:   "real Options.ShouldSkip with two matchers constructed under the opposite case rule: result = disjunction of the documented meanings under the method's rule",
+		Bounds: "pattern1 from the catalogue, pattern2 from 3 patterns, subject <= 2 code points", Assumes: []string{aSigma, aRe}})
+	reg(&HarnessSpec{Prop: "C19", Name: "C19IdentMatchers",
+		What:   "real IdentMatcher/NameMatcher/FieldConverter/LiteralSetter/Options.CompareFieldName with symbolic pattern and identifier: equality resp. Unicode simple-fold equality; :conv always case-sensitive; path splitting at '.' lossless",
+		Bounds: "pattern, identifier <= 3 code points, other <= 2, all of Sigma", Assumes: []string{aSigma}})
 }
